@@ -24,7 +24,7 @@ CLAIMED = {
  },
  "C16": {
   "technique": "Lean 4 theorems over atomic accessor bodies regenerated from w2c2_base.h + mem-ops differential tie",
-  "text": "All 63 atomic load/store/RMW/cmpxchg functions (bodies regenerated from the header, one __atomic builtin each) are proved to return the zero-extended old value and store the wrapped new value for all memories/addresses/operands; each wrapper is one indivisible memory step in the model.",
+  "text": "All 63 atomic load/store/RMW/cmpxchg functions (bodies regenerated from the header, one __atomic builtin each) are proved to return the zero-extended old value and store the wrapped new value for all memories/addresses/operands; C16Conc: atomic_bodies_single_step (every wrapper performs exactly one memory access and it is an __atomic builtin — decided over the regenerated bodies), interleaving_is_sequential + trace_program_order (any schedule of any number of threads is the sequential execution of its steps, program order preserved: every returned old value belongs to one total order), no_lost_update (any schedule of rmw.add leaves initial + sum of all operands).",
   "design_ref": "DESIGN.md §5 C16",
   "note": "Trusted: indivisibility and sequential consistency of __atomic_* builtins on naturally aligned cells (assumed).",
  },
